@@ -56,11 +56,17 @@ class Prop(c09.Prop):
         sig = ('readers', fmt)
         try:
             fm = cl.open_mm(fmt, p, r)
-            mm = {k: np.asarray(fm.variables[k][...]) for k in fm.variables.keys()}
             md = {k: len(v) for k, v in fm.dimensions.items()}
         except Exception as e:
             # the property quantifies over files both reader families accept
             return result('not-accepted-memmap', [], st, 1, None, h64(type(e).__name__))
+        mm, mmerr = None, None
+        try:
+            mm = {k: np.asarray(fm.variables[k][...]) for k in fm.variables.keys()}
+        except core.Timeout:
+            raise
+        except Exception as e:
+            mmerr = e
         try:
             fr = cl.open_rd(fmt, p, r)
             rdim = {k: len(v) for k, v in fr.dimensions.items()}
@@ -73,6 +79,10 @@ class Prop(c09.Prop):
             if md[k] != rdim[k]:
                 vs.append(viol('dimension-length', sig, '%s: memmap %d, record reader %d' % (k, md[k], rdim[k]),
                                dim=k, **scope))
+        if mm is None:
+            if vs:
+                return result('viol', vs, st, 2)
+            return result('not-accepted-memmap', [], st, 2, None, h64(type(mmerr).__name__))
         try:
             rd = {k: np.asarray(fr.variables[k][...]) for k in fr.variables.keys()}
         except core.Timeout:
